@@ -12,7 +12,7 @@
     after the three C12 fixes - the text coq/Gen/ConcText.v is regenerated from on every
     run - and [Pinned] the text of the snapshot. *)
 From SpyneV Require Import Base.Prelude C12.Model C12.Proofs C12.Corr C12.Theorems C12.Live C12.RunForm
-  C12.Text C12.TextProofs Gen.ConcText.
+  C12.Text C12.TextProofs C12.Writers C12.Fallback Gen.ConcText.
 
 Section C12.
 Variable V : Type.                    (* attribute / memoised values: any type *)
@@ -21,10 +21,11 @@ Variable over1 over2 : Z -> V -> V.   (* the two prot_attrs overrides *)
 Variable has_prot : Z -> bool.
 Variable mf : Z -> V.                 (* any (pure) memoised function *)
 Variable sf : Z -> V.                 (* the sorted field list of a class *)
+Variable pre : bool.                  (* whether the WSDL was built at start-up, before the first request *)
 Variable reqs : Z -> req.             (* any assignment of requests to threads *)
 
 Notation run := (run V base over1 over2 has_prot mf sf).
-Notation init := (init V base).
+Notation init := (init V base pre).
 Notation alone := (alone V base over1 over2 has_prot mf sf).
 Notation full := (full V base over1 over2 has_prot).
 Notation step := (step V base over1 over2 has_prot mf sf).
@@ -32,7 +33,14 @@ Notation step := (step V base over1 over2 has_prot mf sf).
 (** build_interface_document runs at most once, whatever the schedule *)
 Theorem C12_built_once : forall sched s,
   run Repaired reqs sched (init Repaired reqs) = Some s -> b_gen s <= 1.
-Proof. exact (r_built_once V base over1 over2 has_prot mf sf reqs). Qed.
+Proof. exact (r_built_once V base over1 over2 has_prot mf sf pre reqs). Qed.
+
+(** ... and not at all when it was built at start-up (build_interface_document(url) after the
+    transport was created, the usage the class documents): no request builds it again *)
+Theorem C12_prebuilt_never_rebuilt : forall sched s,
+  run Repaired reqs sched (init Repaired reqs) = Some s -> pre = true ->
+  b_gen s = 1 /\ b_wsdl s = Some 0.
+Proof. exact (r_prebuilt_never_rebuilt V base over1 over2 has_prot mf sf pre reqs). Qed.
 
 (** every finished ?wsdl requester holds the document of the sequential build, and no
     other document is ever stored in the transport or the builder *)
@@ -40,32 +48,32 @@ Theorem C12_served_whole : forall sched s,
   run Repaired reqs sched (init Repaired reqs) = Some s ->
   (forall t, reqs t = RWsdl -> tpc (thr s t) = Done -> out (thr s t) = Some (PWsdl (Some 0))) /\
   (forall d, app_wsdl s = Some d -> d = 0) /\ (forall d, b_wsdl s = Some d -> d = 0).
-Proof. exact (r_served_whole V base over1 over2 has_prot mf sf reqs). Qed.
+Proof. exact (r_served_whole V base over1 over2 has_prot mf sf pre reqs). Qed.
 
 (** every finished caller holds exactly the response its request gets when processed alone *)
 Theorem C12_no_interference : forall sched s t,
   run Repaired reqs sched (init Repaired reqs) = Some s ->
   tpc (thr s t) = Done -> out (thr s t) = alone (reqs t).
-Proof. exact (r_no_interference V base over1 over2 has_prot mf sf reqs). Qed.
+Proof. exact (r_no_interference V base over1 over2 has_prot mf sf pre reqs). Qed.
 
 (** hence the response does not depend on the interleaving (a solo run is one of them) *)
 Theorem C12_schedule_independent : forall sched1 sched2 s1 s2 t,
   run Repaired reqs sched1 (init Repaired reqs) = Some s1 ->
   run Repaired reqs sched2 (init Repaired reqs) = Some s2 ->
   tpc (thr s1 t) = Done -> tpc (thr s2 t) = Done -> out (thr s1 t) = out (thr s2 t).
-Proof. exact (r_schedule_independent V base over1 over2 has_prot mf sf reqs). Qed.
+Proof. exact (r_schedule_independent V base over1 over2 has_prot mf sf pre reqs). Qed.
 
 (** ... and every caller does finish: a request takes a bounded number of steps of its own,
     whatever the others do (no live-lock; true of both program texts) ... *)
 Theorem C12_steps_bounded : forall v sched s t,
   run v reqs sched (init v reqs) = Some s -> count t sched <= bound (reqs t).
-Proof. exact (steps_bounded V base over1 over2 has_prot mf sf reqs). Qed.
+Proof. exact (steps_bounded V base over1 over2 has_prot mf sf pre reqs). Qed.
 
 (** ... while a request is unfinished some thread can move (no dead-lock) ... *)
 Theorem C12_no_deadlock : forall sched s t,
   run Repaired reqs sched (init Repaired reqs) = Some s ->
   tpc (thr s t) <> Done -> exists u, step Repaired reqs s u <> None.
-Proof. exact (r_no_deadlock V base over1 over2 has_prot mf sf reqs). Qed.
+Proof. exact (r_no_deadlock V base over1 over2 has_prot mf sf pre reqs). Qed.
 
 (** ... so a state in which nobody can move is one in which EVERY caller has received
     exactly the response of its request processed alone *)
@@ -73,21 +81,21 @@ Theorem C12_all_served : forall sched s,
   run Repaired reqs sched (init Repaired reqs) = Some s ->
   (forall u, step Repaired reqs s u = None) ->
   forall t, tpc (thr s t) = Done /\ out (thr s t) = alone (reqs t).
-Proof. exact (quiescent_all_served V base over1 over2 has_prot mf sf reqs). Qed.
+Proof. exact (quiescent_all_served V base over1 over2 has_prot mf sf pre reqs). Qed.
 
 (** memoize: the table only ever holds f(key), every call returns f(key) *)
 Theorem C12_memo_transparent : forall sched s,
   run Repaired reqs sched (init Repaired reqs) = Some s ->
   (forall k x, memo s k = Some x -> x = mf k) /\
   (forall t ks, reqs t = RMemo ks -> tpc (thr s t) = Done -> out (thr s t) = Some (PVals (map mf ks))).
-Proof. exact (r_memo_transparent V base over1 over2 has_prot mf sf reqs). Qed.
+Proof. exact (r_memo_transparent V base over1 over2 has_prot mf sf pre reqs). Qed.
 
 (** _attrcache: every published dictionary is complete, every caller sees the complete attributes *)
 Theorem C12_attrs_transparent : forall sched s,
   run Repaired reqs sched (init Repaired reqs) = Some s ->
   (forall k r, cache s k = Some r -> heap s r = full k) /\
   (forall t ks, reqs t = RAttrs ks -> tpc (thr s t) = Done -> out (thr s t) = Some (PVals (map full ks))).
-Proof. exact (r_attrs_transparent V base over1 over2 has_prot mf sf reqs). Qed.
+Proof. exact (r_attrs_transparent V base over1 over2 has_prot mf sf pre reqs). Qed.
 
 (** _sortcache (and any lock-free fill of a value computed from frozen data): only ever
     holds the sequential value, every caller gets it *)
@@ -95,21 +103,21 @@ Theorem C12_sort_transparent : forall sched s,
   run Repaired reqs sched (init Repaired reqs) = Some s ->
   (forall k x, scache s k = Some x -> x = sf k) /\
   (forall t ks, reqs t = RSort ks -> tpc (thr s t) = Done -> out (thr s t) = Some (PVals (map sf ks))).
-Proof. exact (r_sort_transparent V base over1 over2 has_prot mf sf reqs). Qed.
+Proof. exact (r_sort_transparent V base over1 over2 has_prot mf sf pre reqs). Qed.
 
 (** schema validation: a rejected request's fault carries its own error text *)
 Theorem C12_errlog_isolated : forall sched s t ok e,
   run Repaired reqs sched (init Repaired reqs) = Some s ->
   reqs t = RValidate ok e -> tpc (thr s t) = Done ->
   out (thr s t) = Some (if ok then PValid else PFault (Some e)).
-Proof. exact (r_errlog_isolated V base over1 over2 has_prot mf sf reqs). Qed.
+Proof. exact (r_errlog_isolated V base over1 over2 has_prot mf sf pre reqs). Qed.
 
 (** ... also when validate() itself raises (XMLSchemaValidateError, e.g. an entity reference left
     in the tree): the lock is released and the fault carries the text of that exception *)
 Theorem C12_validator_error_isolated : forall sched s t e,
   run Repaired reqs sched (init Repaired reqs) = Some s ->
   reqs t = RValidateX e -> tpc (thr s t) = Done -> out (thr s t) = Some (PFault (Some e)).
-Proof. exact (r_validator_error_isolated V base over1 over2 has_prot mf sf reqs). Qed.
+Proof. exact (r_validator_error_isolated V base over1 over2 has_prot mf sf pre reqs). Qed.
 
 (** the three locks exclude: two threads inside the same critical section are one thread *)
 Theorem C12_mutual_exclusion : forall sched s t u,
@@ -117,7 +125,7 @@ Theorem C12_mutual_exclusion : forall sched s t u,
   (in_wcrit (tpc (thr s t)) = true -> in_wcrit (tpc (thr s u)) = true -> t = u) /\
   (in_vcrit (tpc (thr s t)) = true -> in_vcrit (tpc (thr s u)) = true -> t = u) /\
   (in_mcrit (tpc (thr s t)) = true -> in_mcrit (tpc (thr s u)) = true -> t = u).
-Proof. exact (r_mutual_exclusion V base over1 over2 has_prot mf sf reqs). Qed.
+Proof. exact (r_mutual_exclusion V base over1 over2 has_prot mf sf pre reqs). Qed.
 
 End C12.
 
@@ -139,13 +147,38 @@ Proof. exact text_is_model_text. Qed.
 Theorem C12_text_paths : paths_ok Repaired g_wsdl g_attrs g_validate g_memo g_sort = true.
 Proof. exact text_paths. Qed.
 
+(** no OTHER statement outside __init__ writes instance state of a shared object (application,
+    interface, protocols, transports, document builders): the list regenerated from the working
+    tree is the one examined in coq/C12/Writers.v.  A new lazily filled table or cache on a
+    shared object breaks this obligation until it has been examined (and modelled, if it is filled
+    at request time) *)
+Theorem C12_state_writers_pinned : g_state_writers = state_writers_expected.
+Proof. exact state_writers_pinned. Qed.
+
+(** a check-then-set cache of a per-class value that is looked up by the EXACT class (dict,
+    WeakKeyDictionary: what _attrcache and _sortcache are - side condition g_caches_exact) returns
+    f(class) in every history of calls ... *)
+Theorem C12_exact_cache_transparent : forall (V : Type) (f : Z -> V) ks c,
+  sound V f c -> calls V f (fun _ => None) c ks = map f ks.
+Proof. exact exact_transparent. Qed.
+
+(** ... while one whose lookup falls back to a base-class entry (spyne.util.cdict) answers a
+    subclass with its PARENT's value once the parent has been seen - sequentially, let alone
+    under concurrency.  "No interference" therefore has to hold across requests of different,
+    related classes on one protocol instance: harness/c12.py runs inheritance-related parameter
+    types in every order *)
+Theorem C12_fallback_cache_refuted : forall (V : Type) (f : Z -> V) parent child par,
+  parent child = Some par -> child <> par ->
+  calls V f parent (fun _ => None) [par; child] = [f par; f par].
+Proof. exact fallback_refuted. Qed.
+
 (** ---- the same statements are FALSE of the pinned program text (witness schedules over the
     integer instance; replayed on the real code by harness/c12.py): *)
 
 (** two racing ?wsdl requests: two builds, the second requester gets (and the transport
     keeps) the document of the second build *)
 Theorem C12_pinned_wsdl_refuted :
-  exists sched s, crun Pinned (fun _ => RWsdl) sched (cinit Pinned (fun _ => RWsdl)) = Some s /\
+  exists sched s, crun Pinned (fun _ => RWsdl) sched (cinit false Pinned (fun _ => RWsdl)) = Some s /\
     b_gen s = 2 /\ tpc (thr s 0) = Done /\ tpc (thr s 1) = Done /\
     out (thr s 0) = Some (PWsdl (Some 0)) /\ out (thr s 1) = Some (PWsdl (Some 1)) /\
     app_wsdl s = Some 1.
@@ -153,7 +186,7 @@ Proof. exact pinned_wsdl_refuted. Qed.
 
 (** a cache hit between the store of the base dictionary and its prot_attrs updates *)
 Theorem C12_pinned_attrs_refuted :
-  exists sched s, crun Pinned attrs_reqs sched (cinit Pinned attrs_reqs) = Some s /\
+  exists sched s, crun Pinned attrs_reqs sched (cinit false Pinned attrs_reqs) = Some s /\
     tpc (thr s 1) = Done /\ out (thr s 1) = Some (PVals [10]) /\
     calone (attrs_reqs 1) = Some (PVals [13]).
 Proof. exact pinned_attrs_refuted. Qed.
@@ -162,10 +195,10 @@ Proof. exact pinned_attrs_refuted. Qed.
     the text 'None' or the other request's error text *)
 Theorem C12_pinned_errlog_refuted :
   (exists sched s, let rq := errlog_reqs (RValidate true 0) in
-     crun Pinned rq sched (cinit Pinned rq) = Some s /\
+     crun Pinned rq sched (cinit false Pinned rq) = Some s /\
      tpc (thr s 0) = Done /\ out (thr s 0) = Some (PFault None) /\ calone (rq 0) = Some (PFault (Some 7))) /\
   (exists sched s, let rq := errlog_reqs (RValidate false 8) in
-     crun Pinned rq sched (cinit Pinned rq) = Some s /\
+     crun Pinned rq sched (cinit false Pinned rq) = Some s /\
      tpc (thr s 0) = Done /\ out (thr s 0) = Some (PFault (Some 8)) /\ calone (rq 0) = Some (PFault (Some 7))).
 Proof. exact pinned_errlog_refuted. Qed.
 
@@ -183,7 +216,7 @@ Definition ex_reqs (t : Z) : req :=
 Definition ex_sched : list Z :=
   [0;1;2;3;4;5;0;1;2;3;4;5;0;2;2;3;4;5;0;3;3;3;4;0;3;3;4;4;0;4;0;0;0;1;1;1;6;6;6].
 Example C12_ex_all_finish :
-  exists s, crun Repaired ex_reqs ex_sched (cinit Repaired ex_reqs) = Some s /\
+  exists s, crun Repaired ex_reqs ex_sched (cinit false Repaired ex_reqs) = Some s /\
     forallb (fun t => match tpc (thr s t) with Done => true | _ => false end) [0;1;2;3;4;5;6] = true /\
     b_gen s = 1 /\ out (thr s 1) = Some (PWsdl (Some 0)) /\ out (thr s 2) = Some (PFault (Some 5)) /\
     out (thr s 3) = Some (PVals [13; 13; 20]) /\ out (thr s 4) = Some (PVals [24; 24]) /\
@@ -192,21 +225,32 @@ Proof. eexists. vm_compute. repeat split. Qed.
 (** the same state is quiescent (hypothesis of C12_all_served), and the schedule uses the
     step budget of C12_steps_bounded without exhausting it *)
 Example C12_ex_quiescent :
-  exists s, crun Repaired ex_reqs ex_sched (cinit Repaired ex_reqs) = Some s /\
+  exists s, crun Repaired ex_reqs ex_sched (cinit false Repaired ex_reqs) = Some s /\
     forallb (fun u => match cstep Repaired ex_reqs s u with None => true | Some _ => false end) [0;1;2;3;4;5;6;7] = true /\
     count 3 ex_sched = 8 /\ bound (ex_reqs 3) = 27.
 Proof. eexists. vm_compute. repeat split. Qed.
 (** a blocked thread exists in a reachable state (the locks do something; hypothesis of
     C12_no_deadlock / C12_mutual_exclusion: thread 0 is inside the critical section) *)
 Example C12_ex_blocks :
-  exists s, crun Repaired ex_reqs [0;0;0;1;1] (cinit Repaired ex_reqs) = Some s /\
+  exists s, crun Repaired ex_reqs [0;0;0;1;1] (cinit false Repaired ex_reqs) = Some s /\
     cstep Repaired ex_reqs s 1 = None /\ tpc (thr s 1) = W_acq /\ in_wcrit (tpc (thr s 0)) = true.
 Proof. eexists. vm_compute. repeat split. Qed.
-(** the text theorems are not about an empty table: 15 paths, and the pinned skeletons are
+(** the prebuilt case is not vacuous: two requesters, no build, both get the start-up document *)
+Example C12_ex_prebuilt :
+  exists s, crun Repaired (fun _ => RWsdl) [0;0;1;1] (cinit true Repaired (fun _ => RWsdl)) = Some s /\
+    b_gen s = 1 /\ out (thr s 0) = Some (PWsdl (Some 0)) /\ out (thr s 1) = Some (PWsdl (Some 0)).
+Proof. eexists. vm_compute. repeat split. Qed.
+(** the fallback refutation bites: a subclass with one more member gets the parent's list *)
+Example C12_ex_fallback :
+  calls Z (fun k => 10 * k) (fun k => if k =? 2 then Some 1 else None) (fun _ => None) [1; 2] = [10; 10] /\
+  calls Z (fun k => 10 * k) (fun _ => None) (fun _ => None) [1; 2] = [10; 20] /\
+  (length state_writers_expected = 60)%nat.
+Proof. vm_compute. repeat split. Qed.
+(** the text theorems are not about an empty table: 17 paths, and the pinned skeletons are
     rejected by the same test (and accepted by the pinned model) *)
 Example C12_ex_text :
   (length (wsdl_paths Repaired) + length (attrs_paths Repaired) + length (validate_paths Repaired)
-   + length memo_paths + length sort_paths = 15)%nat /\
+   + length memo_paths + length sort_paths + length (wsdl_pre_paths Repaired) = 17)%nat /\
   paths_ok Repaired (text_wsdl Pinned) g_attrs g_validate g_memo g_sort = false /\
   paths_ok Repaired g_wsdl (text_attrs Pinned) g_validate g_memo g_sort = false /\
   paths_ok Repaired g_wsdl g_attrs (text_validate Pinned) g_memo g_sort = false /\
